@@ -163,3 +163,114 @@ def parse_timestamps(df, col):
             delta = v.to_pydatetime() - dt.datetime(1970, 1, 1)
             out.append(delta.days * 86400 + delta.seconds)
     return out
+
+
+# ------------------------------------------------------------------ public-signature forms
+SEP_FORMS = ["dict", "single", "partial-dict"]
+DEVICES = ["none", "str", "device"]
+
+
+def draw_forms(rng, desc):
+    """Forms of the public signature a case is driven through (harness/c01.py, c02.py CLAUSES / SIGNATURE):
+    Dataset(df, col_to_stype, target_col, split_col, col_to_sep, col_to_*_cfg, col_to_time_format) and
+    materialize(device, path, col_stats) / converter(df, device)."""
+    order = [c["name"] for c in desc["cols"]]
+    rng.shuffle(order)
+    return {"sep": rng.pick(SEP_FORMS), "fmt": rng.pick(SEP_FORMS), "cfg": rng.pick(["dict", "single"]),
+            "split_col": rng.chance(0.25), "stype_order": order if rng.chance(0.5) else None,
+            "args": rng.pick(["keyword", "positional"]), "device": rng.pick(DEVICES),
+            "path": rng.chance(0.06), "return_stype": rng.chance(0.5)}
+
+
+def _pattern(form, full):
+    """a {col: value} configuration in the requested public form; returns (argument, form actually used)"""
+    if not full:
+        return None, "none"
+    vals = list(full.values())
+    if form == "single" and all(v == vals[0] for v in vals):
+        return vals[0], "single"
+    if form == "partial-dict" and any(v is None for v in vals):
+        return {k: v for k, v in full.items() if v is not None}, "partial-dict"
+    return dict(full), "dict"
+
+
+def make_dataset(desc, df=None, forms=None, stubs=None):
+    """dfgen.build_dataset with the signature forms of `forms` (None: the defaults build_dataset uses)."""
+    import torch_frame
+    from torch_frame.config.image_embedder import ImageEmbedderConfig
+    from torch_frame.config.text_embedder import TextEmbedderConfig
+    from torch_frame.config.text_tokenizer import TextTokenizerConfig
+    from torch_frame.data import Dataset
+    forms = forms or {}
+    df = G.build_df(desc) if df is None else df
+    used = {}
+    names = [n for n in (forms.get("stype_order") or list(df.columns)) if n in df.columns]
+    names += [n for n in df.columns if n not in names]
+    by = {c["name"]: c for c in desc["cols"]}
+    col_to_stype = {n: getattr(torch_frame, by[n]["stype"]) for n in names if n in by}
+    used["stype_order"] = "shuffled" if list(col_to_stype) != [n for n in df.columns if n in by] else "frame-order"
+    sep, used["sep"] = _pattern(forms.get("sep", "dict"), {c["name"]: c["sep"] for c in desc["cols"]
+                                                            if c["stype"] == "multicategorical"})
+    fmt, used["fmt"] = _pattern(forms.get("fmt", "dict"),
+                                {c["name"]: (None if c["fmt"] in (None, "datetime64") else c["fmt"])
+                                 for c in desc["cols"] if c["stype"] == "timestamp"})
+    stubs = stubs if stubs is not None else {}
+    te, tt, ie = {}, {}, {}
+    for c in desc["cols"]:
+        if c["stype"] == "text_embedded":
+            stubs.setdefault(c["name"], G.StubTextEmbedder(3))
+            te[c["name"]] = TextEmbedderConfig(text_embedder=stubs[c["name"]], batch_size=c.get("batch_size"))
+        elif c["stype"] == "image_embedded":
+            stubs.setdefault(c["name"], G.StubImageEmbedder(2))
+            ie[c["name"]] = ImageEmbedderConfig(image_embedder=stubs[c["name"]], batch_size=c.get("batch_size"))
+        elif c["stype"] == "text_tokenized":
+            stubs.setdefault(c["name"], G.StubTokenizer(c.get("tok_fmt", "list")))
+            tt[c["name"]] = TextTokenizerConfig(text_tokenizer=stubs[c["name"]], batch_size=c.get("batch_size"))
+
+    def cfg(d):
+        if not d:
+            return None
+        if forms.get("cfg") == "single" and len(d) == 1:
+            used["cfg"] = "single"
+            return next(iter(d.values()))
+        used.setdefault("cfg", "dict")
+        return d
+    split_col = None
+    if forms.get("split_col"):
+        split_col = "__split__"
+        df = df.copy()
+        df[split_col] = [i % 3 for i in range(len(df))]
+    used["split_col"] = split_col is not None
+    kw = dict(col_to_sep=sep, col_to_time_format=fmt, col_to_text_embedder_cfg=cfg(te),
+              col_to_text_tokenizer_cfg=cfg(tt), col_to_image_embedder_cfg=cfg(ie))
+    if forms.get("args") == "positional":
+        used["args"] = "positional"
+        ds = Dataset(df, col_to_stype, desc["target"], split_col, kw["col_to_sep"], kw["col_to_text_embedder_cfg"],
+                     kw["col_to_text_tokenizer_cfg"], kw["col_to_image_embedder_cfg"], kw["col_to_time_format"])
+    else:
+        used["args"] = "keyword"
+        ds = Dataset(df, col_to_stype, target_col=desc["target"], split_col=split_col, **kw)
+    return ds, stubs, used
+
+
+def device_arg(form):
+    import torch
+    return {"none": None, "str": "cpu", "device": torch.device("cpu")}.get(form or "none")
+
+
+def count_forms(d, used):
+    """stats helper: histogram of the signature forms actually used"""
+    f = d.setdefault("forms", {})
+    for k, v in (used or {}).items():
+        f[f"{k}={v}"] = f.get(f"{k}={v}", 0) + 1
+
+
+REQUIRED_FORMS = ["sep=dict", "sep=single", "sep=partial-dict", "fmt=dict", "fmt=single", "fmt=partial-dict",
+                  "split_col=True", "split_col=False", "stype_order=shuffled", "stype_order=frame-order",
+                  "args=keyword", "args=positional", "device=none", "device=str", "device=device", "path=True",
+                  "return_stype=True", "return_stype=False"]
+
+
+def missing_forms(d, extra=()):
+    f = d.get("forms", {})
+    return [k for k in list(REQUIRED_FORMS) + list(extra) if f.get(k, 0) == 0]
